@@ -1,7 +1,10 @@
 """C06: pruning yields exactly the induced subtree."""
 from lib import *
+import os, re, shutil
+import cli
 
 PROP = "C06"
+PAR_OK = True          # harness/worker/c06.go keeps no package-level state
 LEVEL = "proof"
 RULE = ("random multifurcating trees (3..16 tips, 40 in thorough; rooted/unrooted; parent slot at random positions; lengths "
         "all/mixed/none, supports mixed/none, named inner nodes, comments) x a set of names to remove or (revert) to keep, "
@@ -9,7 +12,7 @@ RULE = ("random multifurcating trees (3..16 tips, 40 in thorough; rooted/unroote
         "scattered tips, everything but 3 / 2 / 1 / 0 tips, names absent from the tree mixed in; every shape on 4 tips "
         "(5 in thorough) x every subset x both flags exhaustively.  Cases leaving fewer than 3 tips are outside the "
         "property's quantifier: for them only the correspondence with the model (result or error message) is judged.  "
-        "non-trivial = the pruned tree differs from the input; distinct = distinct case text")
+        "non-trivial = the pruned tree differs from the input; distinct = distinct case text.  Chains: in a share of the cases (most of them in search mode) 1-3 single-child inner nodes are inserted directly above a pruned tip, preferably one whose parent is a bifurcation (inner node or root), sometimes also elsewhere; on such inputs the oracle demands the exact tip set, unchanged path lengths and that no single-child node is CREATED.  CLI stream (extra): `gotree prune` with names on the command line, -c, and -f tip files in every layout (one per line, comma separated, mixed, blank lines, no final newline, CRLF) and with long lines (4 KB+-2, 64 KB+-2, ~200 KB, padded with names absent from the tree; real names at the start, middle, end of the long line and on the lines after it), with and without -r; judged against the requested tip set and against the run with the names on the command line")
 TRUSTED = ["tree built through NewNode/NewEdge + verif hooks (exact neighbour order); dump through Neigh()/Edges()/Left()/Right()",
            "worker classifies TipNode results by pointer membership in Tips()"]
 ASSUMPTIONS = ["tip names are unique (Tree.ReinitIndexes refuses duplicates), so addressing tips by name in the model is exact"]
@@ -61,6 +64,51 @@ def pick_names(rng, t):
     k = rng.randint(1, n)
     return rng.sample(ls, k), "random-any"
 
+
+def _blank_edge(rng, g, lenmode):
+    return {"len": g.length(lenmode), "sup": None, "pv": None, "coms": []}
+
+def add_chain(rng, g, t, tipname, k, lenmode):
+    """insert k single-child inner nodes directly above the tip named tipname"""
+    for x in preorder(t):
+        for i, s in enumerate(x["slots"]):
+            if s is not None and not kids(s[1]) and s[1]["name"] == tipname:
+                e, c = s
+                for j in range(k):
+                    nd = {"name": rng.choice(["", "", "S%d" % rng.randrange(1000)]), "coms": [], "slots": [None, (e, c)]}
+                    if rng.random() < 0.5:
+                        nd["slots"].reverse()
+                    e, c = _blank_edge(rng, g, lenmode), nd
+                x["slots"][i] = (e, c)
+                return True
+    return False
+
+def chain_targets(t, remove):
+    """removed tips, those whose parent has exactly two children first (the parent becomes a
+    single-child node, or the root a one-neighbour root, once the chain is gone)"""
+    good, other = [], []
+    for x in preorder(t):
+        ks = kids(x)
+        for _, c in ks:
+            if not kids(c) and c["name"] in remove:
+                (good if len(ks) == 2 else other).append(c["name"])
+    return good, other
+
+def add_chains(rng, g, t, remove, lenmode):
+    good, other = chain_targets(t, set(remove))
+    targets = []
+    if good:
+        targets.append(rng.choice(good))
+    if other and (not targets or rng.random() < 0.4):
+        targets.append(rng.choice(other))
+    for nm in targets:
+        add_chain(rng, g, t, nm, rng.choice([1, 1, 2, 3]), lenmode)
+    if rng.random() < 0.3:       # a single-child node above a tip that stays
+        stay = [a for a in leaves(t) if a not in remove]
+        if stay:
+            add_chain(rng, g, t, rng.choice(stay), 1, lenmode)
+    return bool(targets)
+
 def mk_case(rng, t, remove, label, revert, absent):
     ls = leaves(t)
     if revert:
@@ -86,6 +134,10 @@ def gen(rng, tier):
                    inner_names=rng.random() < 0.3, comments=rng.random() < 0.2,
                    up_random=rng.random() < 0.5)
         remove, label = pick_names(rng, t)
+        if rng.random() < (0.7 if tier == "search" else 0.15):
+            lm = "all" if all(e["len"] is not None for x in preorder(t) for e, _ in kids(x)) else "mixed"
+            if add_chains(rng, g, t, remove, lm):
+                label += "+chain"
         out.append(mk_case(rng, t, remove, label, rng.random() < 0.4, rng.random() < 0.25))
     # exhaustive: every shape x every subset x both flags
     if tier != "search":
@@ -99,3 +151,133 @@ def gen(rng, tier):
                 for revert in (False, True):
                     out.append(mk_case(rng, t, remove, "exhaustive", revert, False))
     return out
+
+
+# ---------------------------------------------------------------- CLI stream: gotree prune
+def _tips_of_newick(s):
+    return [m for m in re.findall(r"[(,]([^(),:;\[\]]+)", s)]
+
+def _pad_names(nbytes, start):
+    """comma separated names that are not in any generated tree, total length exactly nbytes (>= 12)"""
+    out, k, ln = [], start, 0
+    while True:
+        nm = "zz%07d" % k
+        add = len(nm) + (1 if out else 0)
+        if ln + add > nbytes - 0:
+            break
+        out.append(nm); ln += add; k += 1
+    # stretch the last name to reach the exact length
+    if out and ln < nbytes:
+        out[-1] = out[-1] + "q" * (nbytes - ln)
+    return out
+
+def _layouts(rng, names):
+    """tip-file layouts for a list of names -> [(label, bytes)]"""
+    res = []
+    res.append(("one-per-line", "\n".join(names) + "\n"))
+    res.append(("no-final-newline", "\n".join(names)))
+    res.append(("crlf", "\r\n".join(names) + "\r\n"))
+    res.append(("comma-one-line", ",".join(names) + "\n"))
+    res.append(("comma-no-newline", ",".join(names)))
+    # mixed: random grouping, blank lines in between
+    lines, i = [], 0
+    while i < len(names):
+        k = rng.randint(1, 3)
+        lines.append(",".join(names[i:i + k])); i += k
+        if rng.random() < 0.3:
+            lines.append("")
+    res.append(("mixed-blank-lines", "\n".join(lines) + "\n"))
+    return [(l, b.encode()) for l, b in res]
+
+def _long_layouts(rng, names, target):
+    """one long line of about `target` bytes: real names at the start, middle and end of the long line
+    and on the lines after it; padding = absent names"""
+    names = list(names)
+    rng.shuffle(names)
+    q = max(1, len(names) // 4)
+    first, mid, last, after = names[:q], names[q:2 * q], names[2 * q:3 * q], names[3 * q:]
+    fixed = ",".join(first + mid + last)
+    room = target - len(fixed) - 2
+    if room < 40:
+        return None
+    padA = _pad_names(room // 2, 1000)
+    padB = _pad_names(room - room // 2, 500000)
+    line = ",".join(first + padA + mid + padB + last)
+    body = line + "\n" + "\n".join(after) + ("\n" if after else "")
+    return line, body.encode()
+
+def extra(tier, seed, st):
+    """`gotree prune` on small trees: names on the command line, -c, and -f tip files in every layout and
+    with long lines; -r as well.  Oracle: the tips of the output are exactly the requested ones, and the
+    output equals the one obtained with the names on the command line."""
+    rng = random.Random(seed + 606)
+    fails = []
+    info = {"evaluations": 0, "distinct_nontrivial": 0, "cli_layouts": {}}
+    ok, err = cli.build_gotree()
+    if not ok:
+        return [("build", "gotree no longer builds: " + err[-500:], None)], info
+    d = cli.scratch("c06x-")
+    g = Gen(rng)
+    def prune(argv):
+        rc, so, se = cli.run(["prune", "-i", "tree.nw"] + argv, d)
+        return rc, so.decode("utf-8", "replace"), se.decode("utf-8", "replace")
+    def judge(label, argv, want, ref, body):
+        rc, so, se = prune(argv)
+        info["evaluations"] += 1
+        info["cli_layouts"][label] = info["cli_layouts"].get(label, 0) + 1
+        got = sorted(_tips_of_newick(so))
+        if rc != 0 or "panic" in se:
+            fails.append((label, "`gotree prune %s` failed (rc=%d): %s" % (" ".join(argv), rc, se[:200]), body)); return
+        if got != sorted(want):
+            missing = sorted(set(got) - set(want))[:5]
+            fails.append((label, "`gotree prune %s` (%s): the tips of the output are not the requested ones: %d tips instead of %d; "
+                          "not removed: %s" % (" ".join(argv), label, len(got), len(want), missing), body)); return
+        if ref is not None and so.strip() != ref.strip():
+            fails.append((label, "`gotree prune %s` (%s): output differs from the run with the names on the command line" %
+                          (" ".join(argv), label), body)); return
+        info["distinct_nontrivial"] += 1
+    try:
+        ntrees = 6 if tier == "quick" else 25
+        long_targets = [4094, 4095, 4096, 4097, 4098, 65534, 65535, 65536, 65537, 65538, 200000]
+        for ti in range(ntrees):
+            t = g.tree(lo=8, hi=20, maxdeg=4, lenmode="all", supmode="mixed")
+            ls = leaves(t)
+            open(os.path.join(d, "tree.nw"), "w").write(newick(t) + "\n")
+            k = rng.randint(2, len(ls) - 4)
+            remove = rng.sample(ls, k)
+            keep = [a for a in ls if a not in remove]
+            body0 = {"tree": newick(t), "remove": remove}
+            # reference runs: names on the command line
+            rc, ref_rm, se = prune(remove)
+            rc2, ref_keep, se2 = prune(["-r"] + keep)
+            judge("args", remove, keep, None, dict(body0, mode="args"))
+            judge("args -r", ["-r"] + keep, keep, None, dict(body0, mode="args -r"))
+            if ref_rm.strip() != ref_keep.strip():
+                fails.append(("args vs -r", "removing a set and keeping its complement give different trees", body0))
+            # -c: a star tree on the kept tips
+            open(os.path.join(d, "comp.nw"), "w").write("(" + ",".join(keep) + ");\n")
+            judge("-c", ["-c", "comp.nw"], keep, ref_rm, dict(body0, mode="-c"))
+            # tip files, every layout, absent names mixed in
+            absent = ["zzabsent%d" % i for i in range(3)]
+            for label, data in _layouts(rng, remove + absent):
+                open(os.path.join(d, "tips.txt"), "wb").write(data)
+                judge("-f " + label, ["-f", "tips.txt"], keep, ref_rm, dict(body0, mode="-f " + label, tipfile=data.decode()[:300]))
+            for label, data in _layouts(rng, keep + absent):
+                open(os.path.join(d, "tips.txt"), "wb").write(data)
+                judge("-r -f " + label, ["-r", "-f", "tips.txt"], keep, ref_rm, dict(body0, mode="-r -f " + label, tipfile=data.decode()[:300]))
+            # long lines
+            targets = long_targets if (tier != "quick" or ti < 2) else rng.sample(long_targets, 3)
+            for target in targets:
+                for revert in (False, True):
+                    names = keep if revert else remove
+                    r = _long_layouts(rng, names, target)
+                    if r is None:
+                        continue
+                    line, data = r
+                    open(os.path.join(d, "tips.txt"), "wb").write(data)
+                    label = ("-r " if revert else "") + "-f long line %d bytes" % len(line)
+                    judge(label, (["-r"] if revert else []) + ["-f", "tips.txt"], keep, ref_rm,
+                          dict(body0, mode=label, line_bytes=len(line), names_after_line=len(data.decode().split("\n")) - 2))
+    finally:
+        shutil.rmtree(d, ignore_errors=True)
+    return fails, info
